@@ -51,9 +51,6 @@ pub struct FileEntry {
     /// Blob path relative to the store root; `None` if the file was
     /// analyzed but is not cacheable (e.g. it produced diagnostics).
     pub fragment: Option<String>,
-    /// Source paths of all files that (transitively) depend on this file,
-    /// from the last successful build.
-    pub dependents: Vec<String>,
     /// Names of the tests declared in this file, from the last successful
     /// build. Files containing selected tests need pass2 (their IR is
     /// simulated), so they must not be restored from a fragment.
@@ -64,6 +61,13 @@ pub struct FileEntry {
     /// `None` if it produced none.
     #[serde(default)]
     pub diagnostics: Option<String>,
+    /// Source paths of all files that (transitively) depend on this file,
+    /// from the last successful build.
+    ///
+    /// Keep this required field last: entries are written field by field,
+    /// so a manifest cut short inside an entry lacks it, fails to parse and
+    /// is discarded instead of restoring an entry without its optional tail.
+    pub dependents: Vec<String>,
 }
 
 #[derive(Clone, Debug, Default, Serialize, Deserialize)]
